@@ -24,8 +24,8 @@ pub fn mon() -> Mon {
 
 fn plan(cfg: &RunCfg) -> EncPlan {
     let mut p = EncPlan::new(&RESPONSE_FORMS);
-    p.random_per_form = cfg.pick(20_000, 2_000_000);
-    p.param_sweep_reps = cfg.pick(8, 400) as u32;
+    p.random_per_form = cfg.pick(80_000, 2_000_000);
+    p.param_sweep_reps = cfg.pick(24, 400) as u32;
     p.addr_sweep_reps = cfg.pick(4, 100) as u32;
     p
 }
@@ -75,7 +75,7 @@ fn run(cfg: &RunCfg) -> Report {
     let p = plan(cfg);
     for_each_call(cfg, "c07", &p, &mut |c, _| check(c, &mut rep));
     {
-        let n = if cfg.is_small() { 200 } else { cfg.pick(40_000, 4_000_000) };
+        let n = if cfg.is_small() { 200 } else { cfg.pick(200_000, 4_000_000) };
         let mut rrep = Report::new();
         for_each_response(cfg, "c07-responder", n, &mut |req, resp, who, rep| check_response(req, resp, who, rep), &mut rrep);
         rep.merge(rrep);
